@@ -30,8 +30,9 @@ EXPLANATION = (
     "negates the shift where `roll` is emitted as `cshift` (opposite direction).  R2 the extent of the delay axis in the buffer's "
     "declared shape normalises (sympy) to M + c, c >= 1, with M the maximum of the very delays that index the read.  R3 the only "
     "conversion time -> steps, _preprocess_delay, is int(<rounding call>(delay / self.step_size)); every call site hands the caller's "
-    "own `discretize` flag (or the constant True) on.  R4 the literal that _collect_delays_from_edges substitutes for a missing/zero "
-    "delay equals the slot that holds the current value (R1's write slot).  R5 delays, spreads and source indices are accumulated once "
+    "own `discretize` flag (or the constant True) on.  R4 every literal that _collect_delays_from_edges substitutes for a missing/zero "
+    "delay (whole edge, or None entry of a delay list) equals the slot into which the ring buffers of _add_edge_buffer (the consumer of the "
+    "collected delays) write the current value.  R5 delays, spreads and source indices are accumulated once "
     "per edge in the order of `edges`; every _add_edge_buffer call receives edges/delays/nodes of the same _collect_delays_from_edges "
     "result at the same granularity; the re-pointing loop walks `edges` in order and advances the slot range by len(nodes[i]).  "
     "NOT decided: zero pre-history values, equality with the recurrence, what the backends do with index/index_2d/index_axis (C02), the "
@@ -288,7 +289,6 @@ def _buffer_shape(ctx, ring: Ring, buf: str, vdefs) -> ast.Tuple:
 
 def _analyse(ctx, ring: Ring):
     """Decode the three equations of a sibling whose kinds are a permutation of roll/write/read."""
-    where = f"{ring.f.qual} {ring.label}"
     for e, k in zip(ring.ems, ring.kinds):
         if k == "roll":
             ring.roll = e
@@ -489,6 +489,12 @@ def _fortran_hook(ctx, rid):
     ret = [s for s in walk_shallow(f.node) if isinstance(s, ast.Return)]
     returns_expr = bool(ret) and all(isinstance(s.value, ast.Name) and s.value.id == p_expr for s in ret)
     rebinds = [st for st in g.body if isinstance(st, ast.Assign) and any(isinstance(t, ast.Name) and t.id == p_expr for t in st.targets)]
+    three = [r for r in ring_siblings(ctx) for e, k in zip(r.ems, r.kinds) if k == "roll" and len(e.eq.rhs.args) == 3]
+    if three:
+        ctx.info(rid, f, g, f"{len(three)} sibling(s) emit roll with an axis argument; the hook negates the token of args[-1] (the axis, which equals the shift "
+                            f"literal today), giving cshift(buf, -1, -1).  gfortran rejects that (invalid dim) and the `buf(,1)` subscripts of the 2-D form: "
+                            f"the Fortran 2-D ring buffer fails loudly at compile time (confirmed by a probe), it does not run wrongly",
+                 label="cshift with axis argument (loud)")
     if new_t == "-" + old_t and returns_expr and rebinds:
         ctx.ok(rid, f, g, "the shift of a cshift call is replaced by its negation before the expression is returned "
                           "(cshift(x, -1) = roll(x, 1))", facts, label="cshift shift negation")
@@ -950,8 +956,6 @@ def _check_repoint(ctx, rid, f):
         exp_ok = True
     else:
         # zip(edges, nodes) form: len(<element of nodes>)
-        for a in width.atoms(sp.Function):
-            pass
         m = [s for s in width.free_symbols]
         if len(m) == 1 and width == sp.Function("len")(m[0]):
             nm = str(m[0])
@@ -1003,8 +1007,8 @@ def _check_repoint(ctx, rid, f):
 
 
 RULES = [
-    ("C09-R1", r1_ring_protocol, 14),
-    ("C09-R2", r2_capacity, 3),
+    ("C09-R1", r1_ring_protocol, 11),      # 3 siblings x (order, roll, write, read) + slot agreement + Fortran hook = 14 today
+    ("C09-R2", r2_capacity, 2),            # 3 today; a sibling whose list R1 rejects is skipped here
     ("C09-R3", r3_rounding, 5),
     ("C09-R4", r4_default_delay_matches_write_slot, 2),
     ("C09-R5", r5_slot_order, 6),
